@@ -396,9 +396,11 @@ class Check:
         ev = dict(property_id=self.pid, tier=self.tier, seed=self.seed, level=self.level,
                   coverage=cov, assumptions=self.assumptions, wall_s=round(wall, 2),
                   violations=len(self.violations))
-        os.makedirs(os.path.join(ROOT, "evidence"), exist_ok=True)
+        # supplementary specifications (ids X..: behaviour outside the listed properties) keep their evidence apart
+        evdir = os.path.join(ROOT, "evidence", "ext") if self.pid.startswith("X") else os.path.join(ROOT, "evidence")
+        os.makedirs(evdir, exist_ok=True)
         if not getattr(self, "replay_mode", False):
-            with open(os.path.join(ROOT, "evidence", self.pid + ".json"), "w") as fh:
+            with open(os.path.join(evdir, self.pid + ".json"), "w") as fh:
                 json.dump(ev, fh, indent=1, sort_keys=True)
                 fh.write("\n")
         for h in self.known_hits:
